@@ -153,7 +153,9 @@ def _deep(t):
 def make_generator(name, owned, world):
     """a PartialGenerator subclass (unique class name: results are keyed by it) for one owner"""
     rev = world.rb.rev
-    text = "\n".join(acl_text(owned, rev))
+    # ACLs are written inside indented triple-quoted strings: every generator has its own base indentation
+    base = " " * (4 * (sum(ord(c) for c in name) % 4))
+    text = "\n" + "\n".join(base + line for line in acl_text(owned, rev)) + "\n" + base
     owned_globals = tuple(o.rule.uid for o in owned if o.rule.is_global)
 
     def run(self, device):
